@@ -230,6 +230,31 @@ def spec(chk, ans):
     return True, ""
 
 
+def chk_of_line(l):
+    """rebuild the oracle's view of a corpus / replay line (None when it is outside the domain)."""
+    w = l.split()
+    try:
+        if w[0] in ("i.diff", "i.lt", "i.le"):
+            a, b = unhex16(w[1]), unhex16(w[2])
+            if normal(a) and normal(b) and (w[0] != "i.diff" or kind(a) == kind(b)):
+                return (w[0][2:], a, b)
+        elif w[0] == "i.add":
+            b = unhex16(w[1])
+            if normal(b):
+                return ("add", b, int(w[2]))
+        elif w[0] == "i.fixup":
+            return ("fixup", unhex16(w[1]))
+        elif w[0] in ("i.toepoch", "i.tstamp"):
+            a = unhex16(w[1])
+            if normal(a):
+                return (w[0][2:], a)
+        elif w[0] == "i.frepoch":
+            return ("frepoch", int(w[1]))
+    except Exception:
+        pass
+    return None
+
+
 def build(ctx):
     fn = common.extract_c_function(os.path.join(ctx.src, "echsd.c"), "instant_to_tstamp")
     with open(os.path.join(ctx.scratch, "x_instant_to_tstamp.c"), "w") as f:
@@ -257,7 +282,7 @@ def run(ctx):
     exe = build(ctx)
     cases = []
     for l in common.load_corpus("C08"):
-        cases.append((l, None))
+        cases.append((l, chk_of_line(l)))
     cases += gen(ctx)
     lines = [c[0] for c in cases]
     impl, status, err = ctx.impl(exe, lines)
@@ -322,5 +347,10 @@ def replay(ctx, rep):
         return 1
     out, st, _ = ctx.impl(exe, [op])
     print("op: %s\nimpl: %s\nmodel: %s" % (op, out[0] if out else st, ctx.model([op])[0]))
+    chk = chk_of_line(op)
+    if chk is not None:
+        ok, why = spec(chk, out[0] if out else "")
+        print("verdict: %s %s" % ("holds" if ok else "FAILS", "" if ok else why))
+        return 0 if ok else 1
     print("was: %s" % rep.get("what"))
     return 1 if (out and out[0] == rep["data"].get("impl")) else 0
